@@ -193,7 +193,7 @@ def run(ctx):
                             tp = tagpath(W, other)
                             if tp and tp[1] == ("SRV",):
                                 found = True
-                                reach_ok = any(fn.reaches(d, ob[0]) or d == ob[0] for ob in oks)
+                                reach_ok = any(d == ob[0] or fn.feasible_reach(d, {ob[0]}) for ob in oks)
                                 ctx.check("wellformed-gate", "RfcDraft13/srv-mismatch-rejected", not reach_ok, "a request whose SRV differs from expected_srv is rejected",
                                           "the SRV-mismatch edge still reaches the Ok return", fn.loc(s))
             ctx.check("wellformed-gate", "RfcDraft13/srv-compared-with-expected", found, "SRV (when present) is compared with expected_srv",
